@@ -20,7 +20,9 @@ platform into `default`:
   `variables` = component variables `update` override variables, `fill_in(ignore_errors=True)` in
   global+stage+component context; `convert_component_types(ignore_convert_errors=True)`; only the override
   block of the selected platform is kept;
-* blueprints        = `override_object(default, platform)` per scope, `fill_in(ignore_errors=True)`.
+* blueprints        = `override_object(default, platform)` per scope (the stage scope repeats the platform's
+  GLOBAL blueprint between the two when the default stage blueprint says something: `repeatsPlatformGlobal`),
+  `fill_in(ignore_errors=True)`.
 
 `flattenRaw` is the same fold without any interpolation / conversion (the layering skeleton; theorems
 `flatten_preserves_layering`, `flatten_preserves_resolution` in Props/C04.lean), `flatten` the function
@@ -156,12 +158,24 @@ def flatPlatforms (P : S) : List S := if P = defaultName then [defaultName] else
 def flatCompRaw (P : S) (c : Comp) : Comp :=
   { c with body := trimOverrideRaw (set c.body "variables".toList (.dict (flatCompVars0 c P))) P }
 
+/-- does `instance()` repeat the platform's GLOBAL blueprint inside the stage blueprint?  The flattened
+description has two blueprint scopes only (global, stage): when the default STAGE blueprint says something
+and `P` is not the default platform, the platform-global blueprint (which outranks it) is layered on top of it
+before the platform-stage blueprint, so that the stage scope keeps the documented order -/
+def repeatsPlatformGlobal (d : Desc) (P : S) (i : Nat) : Bool :=
+  !falsy (bpStage d defaultName i) && !(P == defaultName)
+
+/-- default stage blueprint (+ platform global blueprint, see `repeatsPlatformGlobal`) without clash checks -/
+def stageBpBaseRaw (d : Desc) (P : S) (i : Nat) : Val :=
+  if repeatsPlatformGlobal d P i then override (bpStage d defaultName i) (bpGlobal d P)
+  else bpStage d defaultName i
+
 /-- the fold without interpolation, type conversion and blueprint layering of the component bodies: what
 `instance()` does to the SCOPES of the description -/
 def flattenRaw (d : Desc) (P : S) : Desc :=
   { platforms := flatPlatforms P
     blueprint := [(defaultName, (override (bpGlobal d defaultName) (bpGlobal d P),
-      (stagesOf d.comps).map fun i => (i, override (bpStage d defaultName i) (bpStage d P i))))]
+      (stagesOf d.comps).map fun i => (i, override (stageBpBaseRaw d P i) (bpStage d P i))))]
     variables := [(defaultName, { global := flatGlobal0 d P,
                                   stages := (stagesOf d.comps).map fun i => (i, flatStage0 d P i) })]
     comps := d.comps.map (flatCompRaw P) }
@@ -261,16 +275,25 @@ def flatComps (fuel : Nat) (d : Desc) (P : S) (prim inject : Bool) (fv : FlatVar
 def flatBlueprint (fuel : Nat) (ctx : Fields) (prim : Bool) (lo hi : Val) : Except Err Val :=
   if clash lo hi then .error .typeClash else fillSoft fuel ctx prim (override lo hi)
 
+/-- `override_object(default stage blueprint, platform global blueprint)` when `repeatsPlatformGlobal` -/
+def stageBpBase (d : Desc) (P : S) (i : Nat) : Except Err Val :=
+  if repeatsPlatformGlobal d P i then
+    (if clash (bpStage d defaultName i) (bpGlobal d P) then .error .typeClash
+     else .ok (override (bpStage d defaultName i) (bpGlobal d P)))
+  else .ok (bpStage d defaultName i)
+
 def flatStageBlueprints (fuel : Nat) (d : Desc) (P : S) (prim : Bool) (fv : FlatVars) :
     List Nat → Except Err (List (Nat × Val))
   | [] => .ok []
   | i :: r =>
-    match flatBlueprint fuel (update fv.global ((lookupN fv.stages i).getD [])) prim
-        (bpStage d defaultName i) (bpStage d P i) with
+    match stageBpBase d P i with
     | .error e => .error e
-    | .ok b => match flatStageBlueprints fuel d P prim fv r with
+    | .ok lo =>
+      match flatBlueprint fuel (update fv.global ((lookupN fv.stages i).getD [])) prim lo (bpStage d P i) with
       | .error e => .error e
-      | .ok r' => .ok ((i, b) :: r')
+      | .ok b => match flatStageBlueprints fuel d P prim fv r with
+        | .error e => .error e
+        | .ok r' => .ok ((i, b) :: r')
 
 /-- `FlowIRConcrete.instance(P, ignore_errors=True, fill_in_all=False, is_primitive=prim,
 inject_missing_fields=inject)` as a description -/
